@@ -346,8 +346,7 @@ def r4_measurement_outcome(report, repo):
                'created: later assignments are not shown')
 
 
-def r5_phase_state(report, repo):
-  rule = 'C10-R5'
+def r5_phase_state(report, repo, rule='C10-R5'):
   report.rule(rule, 'paired write: PhaseState.set_subtest_name / attach update '
               '_cached with the record field; _notify marks the measurement '
               'dirty; as_base_types refreshes exactly the dirty ones; '
